@@ -63,6 +63,21 @@ CLAIMED = {
             "DESIGN.md section 6 C05",
             "Chain layouts (1..3 replicas, two ensembles) are enumerated, lengths / configuration numbers / samples symbolic. NOT decided: covariance "
             "inputs (rejection), Corr.correlate, qtop_projection, inheritance of the flag through derived_observable (that is its result assembly)."),
+    "C06": ("symbolic execution with loop invariants over a 2-D array model (matrix of symbolic dimension) + callee contracts + sum extensionality; z3 / cvc5",
+            "Proof of what pyerrors itself implements of the covariance: (1) covariance(): the double loop fills exactly the upper triangle with "
+            "the pairwise elements, the symmetrisation / normalisation / rescaling give, for EVERY i, j and every list length, "
+            "cov[i][j] = dvalue_i * c(i,j)/sqrt(c(i,i) c(j,j)) * dvalue_j with c the pairwise element; hence symmetric, diagonal = squared "
+            "errors, unit diagonal of the correlation matrix (postconditions, not tests); (2) _covariance_element: for enumerated chain "
+            "layouts (one chain, two replicas, a replica missing in one operand, disjoint ensembles, an extra ensemble) and symbolic "
+            "configuration lists / fluctuations: 0 without a common chain, an exception iff an operand was not analysed, otherwise the Pearson "
+            "form sum_r sum_{common c} d1 d2 / sum_r sqrt(sum d1^2 sum d2^2) over the configurations common to both (gathered by configuration "
+            "NUMBER through the proved contracts of _intersection_idx / _reduce_deltas); (3) sort_corr: for every block pair the re-sorted "
+            "matrix entry equals the original entry at the permuted position (key lists enumerated, block sizes and dimension unbounded).",
+            "DESIGN.md section 6 C06",
+            "Assumed: real square root axioms, SUM extensionality (equal summands give equal sums), the numpy 2-D array model of pyvc/lib_mat.py. "
+            "NOT decided: |rho| <= 1 and positive semi-definiteness (consequences of the Pearson form, Cauchy-Schwarz not mechanised), "
+            "covariance inputs (J1 Sigma J2^T), _smooth_eigenvalues (trace), invert_corr_cov_cholesky, error_band, the rank warning, "
+            "permutation equivariance as such (it follows from (1): entries depend only on the pair)."),
     "C13": ("symbolic execution of export_jackknife / import_jackknife (structured-matrix model of ones - (n-1) identity) + arithmetic lemmas",
             "Proof: export_jackknife returns [value, (n value - x_i)/(n-1)] for every i and rejects observables with more than one chain; "
             "import_jackknife returns a well-formed single-chain observable with value jacks[0], the given configuration list and samples "
